@@ -378,7 +378,7 @@ def run(ctx):
     import c14 as _c14
 
     ctx.include("C17.12", "the arguments of a phi do not depend on the order in which the incoming edges are visited: every edge contributes its argument, the unassigned one included (shared with C14.3)", _c14.rule_phis_and_locals, only=["ensure_phi_argument/"])
-    ctx.include("C17.13", "each definition is analysed and its cached reports displayed once, whatever the order of the name maps; a writer's decision about a report depends on that report alone (shared with C03.1/C03.2)", c03.rule_drain, lambda c: c03.rule_exit_status(c, "C03.2"), only=["one-analysis-per-name", "lifted-at-most-once", "::filter/"])
+    ctx.include("C17.13", "each definition is analysed and its cached reports displayed once, whatever the order of the name maps; a writer's decision about a report depends on that report alone (shared with C03.1/C03.2)", c03.rule_drain, lambda c: c03.rule_exit_status(c, "C03.2"), only=["one-analysis-per-name", "lifted-at-most-once", "::filter/", "AnalysisRunner/"])
     ctx.include("C17.6", "no finding is dropped by a de-duplication whose outcome depends on the order in which definitions, passes or files were processed: the runner and the writers never narrow a report collection (shared with C03.1)", c03.rule_drain, only=["no-narrowing", "appends-everything"])
     ctx.include("C17.15", "which phi statements exist does not depend on the order in which the written variables of a block come out of their hash set: a frontier block is re-queued whenever *any* variable got a new phi there (shared with C14.2)", _c14.rule_phi_insertion)
     import c18
